@@ -370,6 +370,7 @@ type ServerOpts struct {
 	NoLog                bool        // do not keep the event log
 	LogPackets           bool
 	Mutate               func(*gortsplib.Server) // last-minute changes before Start
+	PreStart             func(*TestServer)       // install Core overrides (ts.Core.*) before Start
 	ListenIP             string                  // default 127.0.0.1
 }
 
@@ -478,6 +479,10 @@ func StartServer(o ServerOpts) (*TestServer, error) {
 			o.Mutate(s)
 		}
 		ts.S = s
+		if o.PreStart != nil {
+			// handler overrides must be installed before any connection goroutine can exist
+			o.PreStart(ts)
+		}
 		if err := s.Start(); err != nil {
 			lastErr = err
 			if strings.Contains(err.Error(), "address already in use") {
